@@ -11,7 +11,8 @@ open TV TV.Py
 /-- the model's exceptions as Python exceptions -/
 def liftErr : Proj.Err → Py.Err
   | .zerodiv => .zerodiv
-  | .unbound => .unbound
+  | .index => .index
+  | .overflow => .value   -- never met below: the translator's `pow` is total (see `tie_proj_polyligne_exact`)
 
 /-- a model result as a result of the translated code -/
 def lift {β : Type} : Except Proj.Err β → Py.M β
@@ -94,22 +95,23 @@ theorem tie_proj_segment (sqrt : α → α) (x1 y1 x2 y2 x y : α) (rest : List 
 
 end
 
-/-! ## `proj_polyligne` (the `for i in range(len(Xp) - 1)` loop, the sentinel `1e400`, the possibly-unbound result)
+/-! ## `proj_polyligne` (the initial answer `Xp[0], Yp[0], 0`, the `for i in range(len(Xp) - 1)` loop, the sentinel `1e400`,
+the lines after the loop) — the source since the `fix:` commit 563eeba
 
-The model (`Proj.polyLoopXY / projPolyligneXY`, and `polyLoop / projPolyligne` on pairs) represents the sentinel
-`distmin = 1e400` by the state `none` ("every distance is `<` it"); the translated code compares with the uninterpreted
-parameter `inf`. The two agree exactly when every distance the loop meets is `< inf`: this is the explicit hypothesis
-`hinf` of the theorems below (true for finite distances when `inf = +∞` on doubles, satisfiable in an ordered field by
-an `inf` above the distances; FALSE for a distance that is itself `inf`/NaN, where the code keeps nothing and the
-model keeps the segment).
+The translated function keeps the state `(distmin, xproj, yproj, iproj)`, initially `(inf, Xp[0], Yp[0], 0)`, and ends with
+`if distmin == inf: distmin = sqrt(pow(x - xproj, 2) + pow(y - yproj, 2))`. The sentinel-faithful model
+(`Proj.polyLoopXYS / projPolyligneXYS`, and `polyLoopS / projPolyligneS` on pairs) keeps `none` while nothing is kept;
+`Proj.encS inf x0 y0` is the code's state for a model state and `Proj.finishS` the lines after the loop, literally.
+`tie_proj_polyligne_exact` / `tie_proj_polyligne_pairs_exact` prove the translated code EQUAL to the model on ALL inputs,
+with NO hypothesis, the model's squaring `sq` being `fun v => .ok (pow v 2)` (the translator renders `v ** 2` by an
+uninterpreted TOTAL `pow`: Python's `OverflowError` on a float whose square leaves the double range is outside the
+translated subset; the driver's instance of `sq` has it and the correspondence check compares it).
 
-MODEL CORRECTION (last part of this file). `Model/Proj.lean` now also has the sentinel-faithful forms
-`Proj.polyLoopXYS / projPolyligneXYS` (and `polyLoopS / projPolyligneS` on pairs), which take the sentinel `inf` as a
-parameter and test `dist < inf` while nothing is kept, exactly as the code does. `tie_proj_polyligne_exact` /
-`tie_proj_polyligne_pairs_exact` prove the translated code EQUAL to them on ALL inputs, with NO sentinel hypothesis
-(exceptions included: on an input whose distances are all `inf`/NaN both raise `UnboundLocalError`). The `hinf` theorems
-below are kept as they are; they also follow from the exact ones and the agreement lemmas of
-`Lemmas/ProjSentinel.lean` (`Proj.projPolyligneXYS_eq_false`, `Proj.projPolyligneS_eq`). -/
+The theorems of `Props/C20.lean` are about the `none`-state forms (`Proj.projPolyligneXY / projPolyligne`): every distance
+beats the sentinel, squares are `v * v`. `tie_proj_polyligne` / `tie_proj_polyligne_pairs` tie the code to them under the
+explicit hypotheses that separate the two forms (`Lemmas/ProjSentinel.lean`): every distance met is `< inf` (`hinf`), a
+value `< inf` is not `== inf` (`hne`), `inf == inf` (`hii`), `pow v 2 = v * v` (`hpow`) — all true of an ordered field with
+`inf` above the distances, and of doubles with finite distances away from overflow. -/
 
 /-- the front-end model's exceptions (`IndexError` added) as Python exceptions -/
 def liftErrX : Proj.ErrX → Py.Err
@@ -124,19 +126,18 @@ def liftX {β : Type} : Except Proj.ErrX β → Py.M β
 /-- the model's answer `(distmin, xproj, yproj, iproj)` with its `Nat` index as the Python `int` the code returns -/
 def idx {α : Type} (r : α × α × α × Nat) : α × α × α × Int := (r.1, r.2.1, r.2.2.1, (r.2.2.2 : Int))
 
-/-- loop state of the translated `proj_polyligne`: `(distmin, iproj, xproj, yproj)`, the last three possibly unbound -/
-abbrev St (α : Type) := α × Option Int × Option α × Option α
+/-- loop state of the translated `proj_polyligne`: `(distmin, xproj, yproj, iproj)` -/
+abbrev St (α : Type) := α × α × α × Int
 
-/-- the loop state of the code that corresponds to a model state: `none` ↦ `(inf, unbound, unbound, unbound)`,
-`some (d, xp, yp, i)` ↦ `(d, i, xp, yp)` (injective: the two cases differ on the `Option`s) -/
-def enc {α : Type} (inf : α) : Option (α × α × α × Nat) → St α
-  | none => (inf, none, none, none)
-  | some r => (r.1, some (r.2.2.2 : Int), some r.2.1, some r.2.2.1)
+/-- the loop state of the code that corresponds to a model state: `none` ↦ `(inf, Xp[0], Yp[0], 0)`,
+`some (d, xp, yp, i)` ↦ `(d, xp, yp, i)` -/
+def enc {α : Type} (inf x0 y0 : α) (c : Option (α × α × α × Nat)) : St α := idx (Proj.encS inf x0 y0 c)
 
 /-- the result of the model's loop as the result of the translated `for` -/
-def liftLoop {α : Type} (inf : α) : Except Proj.ErrX (Option (α × α × α × Nat)) → Py.M (Py.Out (St α) (α × α × α × Int))
+def liftLoop {α : Type} (inf x0 y0 : α) :
+    Except Proj.ErrX (Option (α × α × α × Nat)) → Py.M (Py.Out (St α) (α × α × α × Int))
   | .error e => .error (liftErrX e)
-  | .ok c => .ok (.done (enc inf c))
+  | .ok c => .ok (.done (enc inf x0 y0 c))
 
 theorem getIdx_natCast_succ {β : Type} (l : List β) (k : Nat) : getIdx l ((k : Int) + 1) = getItem l (k + 1) := by
   rw [show (k : Int) + 1 = ((k + 1 : Nat) : Int) from by omega, getIdx_natCast]
@@ -159,235 +160,20 @@ theorem projSegmentG_false (sqrt : α → α) (x1 y1 x2 y2 x y : α) :
 def core (sqrt : α → α) (eps x y x1 y1 x2 y2 : α) (i : Int) (s : St α) : Py.M (Py.Ctl (St α) (α × α × α × Int)) :=
   if Proj.skipped eps x1 y1 x2 y2 then .ok (.cont s) else
   Py.bind (lift (Proj.projSegment sqrt x1 y1 x2 y2 x y)) fun r =>
-    if decide (r.1 < s.1) then .ok (.cont (r.1, some i, some r.2.1, some r.2.2)) else .ok (.cont s)
-
-/-- the `for` loop of `proj_polyligne` against the model's recursion, for an ARBITRARY body that reads `Xp[i]`, `Yp[i]`,
-`Xp[i+1]`, `Yp[i+1]` in this order and then does `core`; `xs`, `ys` are the suffixes of `Xp`, `Yp` from index `i` on. -/
-theorem polyLoopXY_tie (inf : α) (sqrt : α → α) (eps x y : α) (body : Int → St α → Py.M (Py.Ctl (St α) (α × α × α × Int))) :
-    ∀ (xs ys : List α) (i : Nat) (cur : Option (α × α × α × Nat)) (lo hi : Int), lo = (i : Int) →
-      hi = (i : Int) + (xs.length : Int) - 1 →
-      (∀ (j : Nat) (s : St α), body ((i + j : Nat) : Int) s =
-        Py.bind (getItem xs j) fun x1 => Py.bind (getItem ys j) fun y1 =>
-        Py.bind (getItem xs (j + 1)) fun x2 => Py.bind (getItem ys (j + 1)) fun y2 =>
-          core sqrt eps x y x1 y1 x2 y2 ((i + j : Nat) : Int) s) →
-      (∀ (j : Nat) (x1 y1 x2 y2 : α) (r : α × α × α), xs[j]? = some x1 → ys[j]? = some y1 → xs[j + 1]? = some x2 →
-        ys[j + 1]? = some y2 → Proj.skipped eps x1 y1 x2 y2 = false →
-        Proj.projSegment sqrt x1 y1 x2 y2 x y = .ok r → r.1 < inf) →
-      Py.forList body (Py.range lo hi) (enc inf cur) = liftLoop inf (Proj.polyLoopXY false sqrt eps x y xs ys i cur) := by
-  intro xs
-  induction xs with
-  | nil =>
-    intro ys i cur lo hi hlo hhi _ _
-    rw [Py.range_empty (by simp only [List.length_nil] at hhi; omega)]; rfl
-  | cons x1 tl ih =>
-    cases tl with
-    | nil =>
-      intro ys i cur lo hi hlo hhi _ _
-      rw [Py.range_empty (by simp only [List.length_cons, List.length_nil] at hhi; omega)]; rfl
-    | cons x2 xs' =>
-      intro ys i cur lo hi hlo hhi hb hinf
-      have hr : Py.range lo hi = lo :: Py.range (lo + 1) hi :=
-        Py.range_cons (by simp only [List.length_cons] at hhi; omega)
-      have hb0 := hb 0 (enc inf cur)
-      simp only [Nat.add_zero, Nat.zero_add, getItem_zero, getItem_one_cons, bind_ok] at hb0
-      rw [← hlo] at hb0
-      rw [hr]
-      match ys with
-      | [] =>
-        simp only [getItem_nil, bind_error] at hb0
-        rw [forList_cons_error hb0]; rfl
-      | [y1] =>
-        simp only [getItem_zero, getItem_one_single, bind_ok, bind_error] at hb0
-        rw [forList_cons_error hb0]; rfl
-      | y1 :: y2 :: ys' =>
-        simp only [getItem_zero, getItem_one_cons, bind_ok, core] at hb0
-        -- the loop on the tails
-        have hb' : ∀ (j : Nat) (s : St α), body ((i + 1 + j : Nat) : Int) s =
-            Py.bind (getItem (x2 :: xs') j) fun x1 => Py.bind (getItem (y2 :: ys') j) fun y1 =>
-            Py.bind (getItem (x2 :: xs') (j + 1)) fun x2 => Py.bind (getItem (y2 :: ys') (j + 1)) fun y2 =>
-              core sqrt eps x y x1 y1 x2 y2 ((i + 1 + j : Nat) : Int) s := by
-          intro j s
-          have e : i + 1 + j = i + (j + 1) := by omega
-          rw [e, hb (j + 1) s]
-          simp only [getItem_succ]
-        have hinf' : ∀ (j : Nat) (a1 b1 a2 b2 : α) (r : α × α × α), (x2 :: xs')[j]? = some a1 → (y2 :: ys')[j]? = some b1 →
-            (x2 :: xs')[j + 1]? = some a2 → (y2 :: ys')[j + 1]? = some b2 → Proj.skipped eps a1 b1 a2 b2 = false →
-            Proj.projSegment sqrt a1 b1 a2 b2 x y = .ok r → r.1 < inf :=
-          fun j a1 b1 a2 b2 r h1 h2 h3 h4 => hinf (j + 1) a1 b1 a2 b2 r h1 h2 h3 h4
-        have htl : ∀ c, Py.forList body (Py.range (lo + 1) hi) (enc inf c) =
-            liftLoop inf (Proj.polyLoopXY false sqrt eps x y (x2 :: xs') (y2 :: ys') (i + 1) c) :=
-          fun c => ih (y2 :: ys') (i + 1) c (lo + 1) hi (by omega) (by simp only [List.length_cons] at hhi ⊢; omega) hb' hinf'
-        by_cases hsk : Proj.skipped eps x1 y1 x2 y2 = true
-        · rw [ite_pos' hsk] at hb0
-          rw [forList_cons_cont hb0, htl cur]
-          simp only [Proj.polyLoopXY, hsk, if_true]
-        · rw [ite_neg' hsk] at hb0
-          have hsk' : Proj.skipped eps x1 y1 x2 y2 = false := by simpa using hsk
-          cases hp : Proj.projSegment sqrt x1 y1 x2 y2 x y with
-          | error e =>
-            rw [hp] at hb0
-            simp only [lift, bind_error] at hb0
-            rw [forList_cons_error hb0]
-            simp only [Proj.polyLoopXY, hsk', projSegmentG_false, hp]
-            rfl
-          | ok r =>
-            rw [hp] at hb0
-            simp only [lift, bind_ok] at hb0
-            have hm : Proj.polyLoopXY false sqrt eps x y (x1 :: x2 :: xs') (y1 :: y2 :: ys') i cur =
-                Proj.polyLoopXY false sqrt eps x y (x2 :: xs') (y2 :: ys') (i + 1)
-                  (if Proj.better r.1 cur then some (r.1, r.2.1, r.2.2, i) else cur) := by
-              simp only [Proj.polyLoopXY, hsk', projSegmentG_false, hp]
-              rfl
-            rw [hm]
-            cases cur with
-            | none =>
-              have hlt : r.1 < inf := hinf 0 x1 y1 x2 y2 r rfl rfl rfl rfl hsk' hp
-              have hd : decide (r.1 < (enc inf (none : Option (α × α × α × Nat))).1) = true := decide_eq_true hlt
-              rw [ite_pos' hd] at hb0
-              rw [forList_cons_cont hb0]
-              simp only [Proj.better, if_true]
-              exact hlo ▸ htl (some (r.1, r.2.1, r.2.2, i))
-            | some c =>
-              by_cases hlt : r.1 < c.1
-              · have hd : decide (r.1 < (enc inf (some c)).1) = true := decide_eq_true hlt
-                rw [ite_pos' hd] at hb0
-                rw [forList_cons_cont hb0]
-                have hbt : Proj.better r.1 (some c) = true := decide_eq_true hlt
-                rw [ite_pos' hbt]
-                exact hlo ▸ htl (some (r.1, r.2.1, r.2.2, i))
-              · have hd : ¬ decide (r.1 < (enc inf (some c)).1) = true := fun h => hlt (of_decide_eq_true h)
-                rw [ite_neg' hd] at hb0
-                rw [forList_cons_cont hb0]
-                have hbt : ¬ Proj.better r.1 (some c) = true := fun h => hlt (of_decide_eq_true h)
-                rw [ite_neg' hbt]
-                exact htl (some c)
-
-/-- **`proj_polyligne(Xp, Yp, x, y)`** (translated from the CURRENT source; `inf` is the sentinel `1e400`) is the model's
-`projPolyligneXY` with Python numbers (`np = false`) and `eps = 1e-16`, on ALL arguments satisfying `hinf`, exceptions
-included: `IndexError` for a `Yp` shorter than `Xp` (raised at `Yp[i]` or `Yp[i+1]`, before the zero-length test and
-before `proj_segment`), `ZeroDivisionError` from `proj_segment`, `UnboundLocalError` when no segment is kept; the
-returned index is the model's `Nat` index as an `int`.
-Hypothesis `hinf` (explicit, input-dependent): on every segment `j` of the two sequences that is not skipped by the
-`< 1e-16` test and on which `proj_segment` returns, the returned distance is `< inf` (the model's `none` state stands for
-a sentinel above every distance). Nothing else is assumed of the scalar type. -/
-theorem tie_proj_polyligne [OfScientific α] (inf : α) (sqrt : α → α) (Xp Yp : List α) (x y : α)
-    (hinf : ∀ (j : Nat) (x1 y1 x2 y2 : α) (r : α × α × α), Xp[j]? = some x1 → Yp[j]? = some y1 → Xp[j + 1]? = some x2 →
-      Yp[j + 1]? = some y2 → Proj.skipped (1e-16 : α) x1 y1 x2 y2 = false →
-      Proj.projSegment sqrt x1 y1 x2 y2 x y = .ok r → r.1 < inf) :
-    Gen.Geometry.proj_polyligne inf sqrt Xp Yp x y =
-      liftX ((Proj.projPolyligneXY false sqrt (1e-16 : α) Xp Yp x y).map idx) := by
-  unfold Gen.Geometry.proj_polyligne
-  simp only []
-  have hl : ∀ body, _ → Py.forList body (Py.range (0 : Int) (Py.len Xp - 1)) (inf, none, none, none) = _ :=
-    fun body h => polyLoopXY_tie inf sqrt (1e-16 : α) x y body Xp Yp 0 none 0 (Py.len Xp - 1) rfl
-      (by simp only [Py.len]; omega) h hinf
-  rw [hl _ ?spec]
-  case spec =>
-    intro j s
-    simp only [Nat.zero_add, getIdx_natCast, getIdx_natCast_succ, tie_proj_segment, core]
-    rfl
-  unfold Proj.projPolyligneXY
-  cases Proj.polyLoopXY false sqrt (1e-16 : α) x y Xp Yp 0 none with
-  | error e => rfl
-  | ok c =>
-    cases c with
-    | none => rfl
-    | some r => rfl
-
-/-- the two-sequence loop on the abscissas and ordinates of a list of vertices is the loop on the vertices -/
-theorem polyLoopXY_pairs (sqrt : α → α) (eps x y : α) :
-    ∀ (pts : List (α × α)) (i : Nat) (cur : Option (α × α × α × Nat)),
-      Proj.polyLoopXY false sqrt eps x y (pts.map Prod.fst) (pts.map Prod.snd) i cur =
-        (Proj.polyLoop sqrt eps x y pts i cur).mapError Proj.ErrX.base := by
-  intro pts
-  induction pts with
-  | nil => intro i cur; rfl
-  | cons p1 tl ih =>
-    cases tl with
-    | nil => intro i cur; rfl
-    | cons p2 rest =>
-      intro i cur
-      simp only [List.map_cons] at ih ⊢
-      by_cases hsk : Proj.skipped eps p1.1 p1.2 p2.1 p2.2 = true
-      · simp only [Proj.polyLoopXY, Proj.polyLoop, hsk, if_true]
-        exact ih (i + 1) cur
-      · have hsk' : Proj.skipped eps p1.1 p1.2 p2.1 p2.2 = false := by simpa using hsk
-        cases hp : Proj.projSegment sqrt p1.1 p1.2 p2.1 p2.2 x y with
-        | error e => simp only [Proj.polyLoopXY, Proj.polyLoop, hsk', projSegmentG_false, hp]; rfl
-        | ok r =>
-          simp only [Proj.polyLoopXY, Proj.polyLoop, hsk', projSegmentG_false, hp]
-          exact ih (i + 1) _
-
-/-- **`proj_polyligne`** on the abscissas and ordinates of a list of vertices (how `__projOnTrack` calls it:
-`track.getX()`, `track.getY()`) is the kernel model `projPolyligne` on the vertices, exceptions included
-(`ZeroDivisionError`, `UnboundLocalError`; no `IndexError`: the two sequences have the same length).
-Hypothesis `hinf`: as in `tie_proj_polyligne`, on the segments of the vertex list. -/
-theorem tie_proj_polyligne_pairs [OfScientific α] (inf : α) (sqrt : α → α) (pts : List (α × α)) (x y : α)
-    (hinf : ∀ (j : Nat) (p1 p2 : α × α) (r : α × α × α), pts[j]? = some p1 → pts[j + 1]? = some p2 →
-      Proj.skipped (1e-16 : α) p1.1 p1.2 p2.1 p2.2 = false →
-      Proj.projSegment sqrt p1.1 p1.2 p2.1 p2.2 x y = .ok r → r.1 < inf) :
-    Gen.Geometry.proj_polyligne inf sqrt (pts.map Prod.fst) (pts.map Prod.snd) x y =
-      lift ((Proj.projPolyligne sqrt (1e-16 : α) pts x y).map idx) := by
-  rw [tie_proj_polyligne inf sqrt _ _ x y ?h]
-  case h =>
-    intro j x1 y1 x2 y2 r h1 h2 h3 h4 hs hp
-    simp only [List.getElem?_map] at h1 h2 h3 h4
-    cases hj : pts[j]? with
-    | none => rw [hj] at h1; exact nomatch h1
-    | some p1 =>
-      cases hj1 : pts[j + 1]? with
-      | none => rw [hj1] at h3; exact nomatch h3
-      | some p2 =>
-        rw [hj] at h1 h2; rw [hj1] at h3 h4
-        simp only [Option.map_some, Option.some.injEq] at h1 h2 h3 h4
-        subst h1 h2 h3 h4
-        exact hinf j p1 p2 r hj hj1 hs hp
-  unfold Proj.projPolyligneXY Proj.projPolyligne
-  rw [polyLoopXY_pairs]
-  cases Proj.polyLoop sqrt (1e-16 : α) x y pts 0 none with
-  | error e => cases e <;> rfl
-  | ok c => cases c <;> rfl
-
-/-- the hypothesis `hinf` cannot be dropped (the MODEL's rendering of the sentinel deviates from the code there): on a
-single kept segment whose distance is NOT `< inf` (a distance that is `inf` or NaN on doubles, e.g.
-`proj_polyligne([0, 1e308, 2], [0, 1e308, 0], -1e308, -1e308)`), the code keeps nothing and raises `UnboundLocalError`,
-while the model returns that segment. -/
-theorem proj_polyligne_sentinel_deviation [OfScientific α] (inf : α) (sqrt : α → α) (x1 y1 x2 y2 x y : α) (r : α × α × α)
-    (hs : Proj.skipped (1e-16 : α) x1 y1 x2 y2 = false) (hp : Proj.projSegment sqrt x1 y1 x2 y2 x y = .ok r)
-    (hn : ¬ r.1 < inf) :
-    Gen.Geometry.proj_polyligne inf sqrt [x1, x2] [y1, y2] x y = .error .unbound ∧
-      Proj.projPolyligneXY false sqrt (1e-16 : α) [x1, x2] [y1, y2] x y = .ok (r.1, r.2.1, r.2.2, 0) := by
-  constructor
-  · unfold Gen.Geometry.proj_polyligne
-    simp only []
-    have hr : Py.range (0 : Int) (Py.len [x1, x2] - 1) = [0] := rfl
-    have h0 : Py.getIdx [x1, x2] (0 : Int) = .ok x1 := rfl
-    have h1 : Py.getIdx [x1, x2] ((0 : Int) + 1) = .ok x2 := rfl
-    have h2 : Py.getIdx [y1, y2] (0 : Int) = .ok y1 := rfl
-    have h3 : Py.getIdx [y1, y2] ((0 : Int) + 1) = .ok y2 := rfl
-    have hs' : ¬ decide (Py.fabs (x1 - x2) + Py.fabs (y1 - y2) < (1e-16 : α)) = true := by
-      intro h; have : Proj.skipped (1e-16 : α) x1 y1 x2 y2 = true := h
-      rw [hs] at this; exact nomatch this
-    have hd : ¬ decide (r.1 < inf) = true := fun h => hn (of_decide_eq_true h)
-    rw [hr, forList_cons]
-    simp only [h0, h1, h2, h3, bind_ok, ite_neg' hs', tie_proj_segment, hp, lift, ite_neg' hd, forList_nil, getBound_none,
-      bind_error]
-  · simp only [Proj.projPolyligneXY, Proj.polyLoopXY, hs, projSegmentG_false, hp, Proj.better]
-    rfl
-
-/-! ### the exact tie: the sentinel-faithful model, no hypothesis -/
+    if decide (r.1 < s.1) then .ok (.cont (r.1, r.2.1, r.2.2, i)) else .ok (.cont s)
 
 /-- the `for` loop of `proj_polyligne` against the SENTINEL-FAITHFUL model's recursion (`Proj.polyLoopXYS`), for an
 arbitrary body that reads `Xp[i]`, `Yp[i]`, `Xp[i+1]`, `Yp[i+1]` in this order and then does `core`: no hypothesis on the
-distances (in the state `none` both sides test `dist < inf`). -/
-theorem polyLoopXYS_tie (inf : α) (sqrt : α → α) (eps x y : α) (body : Int → St α → Py.M (Py.Ctl (St α) (α × α × α × Int))) :
+distances (in the state `none` both sides test `dist < inf`); `x0`, `y0` (the initial answer) are arbitrary. -/
+theorem polyLoopXYS_tie (inf x0 y0 : α) (sqrt : α → α) (eps x y : α) (body : Int → St α → Py.M (Py.Ctl (St α) (α × α × α × Int))) :
     ∀ (xs ys : List α) (i : Nat) (cur : Option (α × α × α × Nat)) (lo hi : Int), lo = (i : Int) →
       hi = (i : Int) + (xs.length : Int) - 1 →
       (∀ (j : Nat) (s : St α), body ((i + j : Nat) : Int) s =
         Py.bind (getItem xs j) fun x1 => Py.bind (getItem ys j) fun y1 =>
         Py.bind (getItem xs (j + 1)) fun x2 => Py.bind (getItem ys (j + 1)) fun y2 =>
           core sqrt eps x y x1 y1 x2 y2 ((i + j : Nat) : Int) s) →
-      Py.forList body (Py.range lo hi) (enc inf cur) = liftLoop inf (Proj.polyLoopXYS false inf sqrt eps x y xs ys i cur) := by
+      Py.forList body (Py.range lo hi) (enc inf x0 y0 cur) =
+        liftLoop inf x0 y0 (Proj.polyLoopXYS false inf sqrt eps x y xs ys i cur) := by
   intro xs
   induction xs with
   | nil =>
@@ -402,7 +188,7 @@ theorem polyLoopXYS_tie (inf : α) (sqrt : α → α) (eps x y : α) (body : Int
       intro ys i cur lo hi hlo hhi hb
       have hr : Py.range lo hi = lo :: Py.range (lo + 1) hi :=
         Py.range_cons (by simp only [List.length_cons] at hhi; omega)
-      have hb0 := hb 0 (enc inf cur)
+      have hb0 := hb 0 (enc inf x0 y0 cur)
       simp only [Nat.add_zero, Nat.zero_add, getItem_zero, getItem_one_cons, bind_ok] at hb0
       rw [← hlo] at hb0
       rw [hr]
@@ -423,8 +209,8 @@ theorem polyLoopXYS_tie (inf : α) (sqrt : α → α) (eps x y : α) (body : Int
           have e : i + 1 + j = i + (j + 1) := by omega
           rw [e, hb (j + 1) s]
           simp only [getItem_succ]
-        have htl : ∀ c, Py.forList body (Py.range (lo + 1) hi) (enc inf c) =
-            liftLoop inf (Proj.polyLoopXYS false inf sqrt eps x y (x2 :: xs') (y2 :: ys') (i + 1) c) :=
+        have htl : ∀ c, Py.forList body (Py.range (lo + 1) hi) (enc inf x0 y0 c) =
+            liftLoop inf x0 y0 (Proj.polyLoopXYS false inf sqrt eps x y (x2 :: xs') (y2 :: ys') (i + 1) c) :=
           fun c => ih (y2 :: ys') (i + 1) c (lo + 1) hi (by omega) (by simp only [List.length_cons] at hhi ⊢; omega) hb'
         by_cases hsk : Proj.skipped eps x1 y1 x2 y2 = true
         · rw [ite_pos' hsk] at hb0
@@ -449,7 +235,7 @@ theorem polyLoopXYS_tie (inf : α) (sqrt : α → α) (eps x y : α) (body : Int
               rfl
             rw [hm]
             -- the code's test `dist < distmin` on the encoded state IS the model's `betterS inf dist cur`
-            have hbs : decide (r.1 < (enc inf cur).1) = Proj.betterS inf r.1 cur := by
+            have hbs : decide (r.1 < (enc inf x0 y0 cur).1) = Proj.betterS inf r.1 cur := by
               cases cur <;> rfl
             rw [hbs] at hb0
             by_cases hbt : Proj.betterS inf r.1 cur = true
@@ -460,32 +246,52 @@ theorem polyLoopXYS_tie (inf : α) (sqrt : α → α) (eps x y : α) (body : Int
               rw [forList_cons_cont hb0, ite_neg' hbt]
               exact htl cur
 
-/-- **`proj_polyligne(Xp, Yp, x, y)`, exact** (translated from the CURRENT source; `inf` is the sentinel `1e400`): it is
-the SENTINEL-FAITHFUL model `Proj.projPolyligneXYS` with Python numbers (`np = false`), the same sentinel `inf` and
-`eps = 1e-16`, on ALL arguments, exceptions included — `IndexError` for a `Yp` shorter than `Xp`, `ZeroDivisionError`
-from `proj_segment`, `UnboundLocalError` when no segment is kept, which now includes the inputs on which no distance is
-`< inf` (all distances `inf`/NaN on doubles). NO hypothesis: nothing is assumed of the scalar type, of `inf`, or of the
-input. -/
-theorem tie_proj_polyligne_exact [OfScientific α] (inf : α) (sqrt : α → α) (Xp Yp : List α) (x y : α) :
-    Gen.Geometry.proj_polyligne inf sqrt Xp Yp x y =
-      liftX ((Proj.projPolyligneXYS false inf sqrt (1e-16 : α) Xp Yp x y).map idx) := by
-  unfold Gen.Geometry.proj_polyligne
-  simp only []
-  have hl : ∀ body, _ → Py.forList body (Py.range (0 : Int) (Py.len Xp - 1)) (inf, none, none, none) = _ :=
-    fun body h => polyLoopXYS_tie inf sqrt (1e-16 : α) x y body Xp Yp 0 none 0 (Py.len Xp - 1) rfl
-      (by simp only [Py.len]; omega) h
-  rw [hl _ ?spec]
-  case spec =>
-    intro j s
-    simp only [Nat.zero_add, getIdx_natCast, getIdx_natCast_succ, tie_proj_segment, core]
-    rfl
-  unfold Proj.projPolyligneXYS
-  cases Proj.polyLoopXYS false inf sqrt (1e-16 : α) x y Xp Yp 0 none with
-  | error e => rfl
-  | ok c =>
-    cases c with
-    | none => rfl
-    | some r => rfl
+/-- the squaring of the translated code as the model's `sq`: `v ** 2` is `pow v 2`, total -/
+def sqPow [OfNat α 2] (pow : α → α → α) : α → Except Proj.Err α := fun v => .ok (pow v 2)
+
+/-- the lines after the loop: the translated `if distmin == inf: ...; return distmin, xproj, yproj, iproj` on the code's
+state of a model state is the model's `finishS` -/
+theorem finish_tie [OfNat α 2] (inf : α) (sqrt : α → α) (pow : α → α → α) (x y : α) (s : α × α × α × Nat) :
+    (if Py.feq (idx s).1 inf then
+        (.ok (sqrt (pow (x - (idx s).2.1) 2 + pow (y - (idx s).2.2.1) 2), (idx s).2.1, (idx s).2.2.1, (idx s).2.2.2) : Py.M (α × α × α × Int))
+      else .ok ((idx s).1, (idx s).2.1, (idx s).2.2.1, (idx s).2.2.2)) =
+      liftX (((Proj.finishS inf sqrt (sqPow pow) x y s).mapError Proj.ErrX.base).map idx) := by
+  unfold Proj.finishS sqPow
+  by_cases h : Proj.isEq s.1 inf = true
+  · have h' : Py.feq (idx s).1 inf = true := h
+    rw [ite_pos' h, ite_pos' h']; rfl
+  · have h' : ¬ Py.feq (idx s).1 inf = true := h
+    rw [ite_neg' h, ite_neg' h']; rfl
+
+/-- **`proj_polyligne(Xp, Yp, x, y)`, exact** (translated from the CURRENT source; `inf` is the sentinel `1e400`, `pow` the
+translator's rendering of `**`): it is the SENTINEL-FAITHFUL model `Proj.projPolyligneXYS` with Python numbers
+(`np = false`), the same sentinel `inf`, `sq v = pow v 2` and `eps = 1e-16`, on ALL arguments, exceptions included —
+`IndexError` for an empty `Xp` / `Yp` (`Xp[0]`, `Yp[0]`) and for a `Yp` shorter than `Xp`, `ZeroDivisionError` from
+`proj_segment`; when no segment is kept (every segment skipped, or no distance `< inf`: all distances `inf`/NaN on
+doubles) the first vertex and the distance to it. NO hypothesis: nothing is assumed of the scalar type, of `inf`, of `pow`
+or of the input. -/
+theorem tie_proj_polyligne_exact [OfScientific α] [OfNat α 2] (inf : α) (sqrt : α → α) (pow : α → α → α) (Xp Yp : List α) (x y : α) :
+    Gen.Geometry.proj_polyligne inf sqrt pow Xp Yp x y =
+      liftX ((Proj.projPolyligneXYS false inf sqrt (sqPow pow) (1e-16 : α) Xp Yp x y).map idx) := by
+  unfold Gen.Geometry.proj_polyligne Proj.projPolyligneXYS
+  match Xp, Yp with
+  | [], _ => rfl
+  | x0 :: xs, [] => rfl
+  | x0 :: xs, y0 :: ys =>
+    simp only [getItem_zero, bind_ok]
+    have hl : ∀ body, _ → Py.forList body (Py.range (0 : Int) (Py.len (x0 :: xs) - 1)) (inf, x0, y0, (0 : Int)) = _ :=
+      fun body h => polyLoopXYS_tie inf x0 y0 sqrt (1e-16 : α) x y body (x0 :: xs) (y0 :: ys) 0 none 0 (Py.len (x0 :: xs) - 1) rfl
+        (by simp only [Py.len]; omega) h
+    rw [hl _ ?spec]
+    case spec =>
+      intro j s
+      simp only [Nat.zero_add, getIdx_natCast, getIdx_natCast_succ, tie_proj_segment, core]
+      rfl
+    cases Proj.polyLoopXYS false inf sqrt (1e-16 : α) x y (x0 :: xs) (y0 :: ys) 0 none with
+    | error e => rfl
+    | ok c =>
+      simp only [liftLoop, bind_ok, enc]
+      exact finish_tie inf sqrt pow x y (Proj.encS inf x0 y0 c)
 
 /-- the sentinel-faithful two-sequence loop on the abscissas and ordinates of a list of vertices is the
 sentinel-faithful loop on the vertices -/
@@ -512,29 +318,103 @@ theorem polyLoopXYS_pairs (inf : α) (sqrt : α → α) (eps x y : α) :
           simp only [Proj.polyLoopXYS, Proj.polyLoopS, hsk', projSegmentG_false, hp]
           exact ih (i + 1) _
 
+/-- the two-sequence form on the abscissas / ordinates of a vertex list is the kernel form on the vertices (sentinel-faithful) -/
+theorem projPolyligneXYS_pairs (inf : α) (sqrt : α → α) (sq : α → Except Proj.Err α) (eps : α) (pts : List (α × α)) (x y : α) :
+    Proj.projPolyligneXYS false inf sqrt sq eps (pts.map Prod.fst) (pts.map Prod.snd) x y =
+      (Proj.projPolyligneS inf sqrt sq eps pts x y).mapError Proj.ErrX.base := by
+  unfold Proj.projPolyligneXYS Proj.projPolyligneS
+  match pts with
+  | [] => rfl
+  | p0 :: rest =>
+    simp only [List.map_cons]
+    have h := polyLoopXYS_pairs inf sqrt eps x y (p0 :: rest) 0 none
+    simp only [List.map_cons] at h
+    rw [h]
+    cases Proj.polyLoopS inf sqrt eps x y (p0 :: rest) 0 none with
+    | error e => rfl
+    | ok c => rfl
+
 /-- **`proj_polyligne`, exact, on the abscissas and ordinates of a list of vertices** (how `__projOnTrack` calls it) is
 the sentinel-faithful kernel model `Proj.projPolyligneS` on the vertices, on ALL arguments, exceptions included
-(`ZeroDivisionError`, `UnboundLocalError`). NO hypothesis. -/
-theorem tie_proj_polyligne_pairs_exact [OfScientific α] (inf : α) (sqrt : α → α) (pts : List (α × α)) (x y : α) :
-    Gen.Geometry.proj_polyligne inf sqrt (pts.map Prod.fst) (pts.map Prod.snd) x y =
-      lift ((Proj.projPolyligneS inf sqrt (1e-16 : α) pts x y).map idx) := by
-  rw [tie_proj_polyligne_exact]
-  unfold Proj.projPolyligneXYS Proj.projPolyligneS
-  rw [polyLoopXYS_pairs]
-  cases Proj.polyLoopS inf sqrt (1e-16 : α) x y pts 0 none with
+(`ZeroDivisionError`; `IndexError` on an empty track). NO hypothesis. -/
+theorem tie_proj_polyligne_pairs_exact [OfScientific α] [OfNat α 2] (inf : α) (sqrt : α → α) (pow : α → α → α) (pts : List (α × α)) (x y : α) :
+    Gen.Geometry.proj_polyligne inf sqrt pow (pts.map Prod.fst) (pts.map Prod.snd) x y =
+      lift ((Proj.projPolyligneS inf sqrt (sqPow pow) (1e-16 : α) pts x y).map idx) := by
+  rw [tie_proj_polyligne_exact, projPolyligneXYS_pairs]
+  cases Proj.projPolyligneS inf sqrt (sqPow pow) (1e-16 : α) pts x y with
   | error e => cases e <;> rfl
-  | ok c => cases c <;> rfl
+  | ok c => rfl
 
-/-- `tie_proj_polyligne` (the `hinf` theorem on the `none`-state model) is a corollary of the exact tie and the agreement
-lemma `Proj.projPolyligneXYS_eq_false` of `Lemmas/ProjSentinel.lean`: the sentinel hypothesis is needed only to pass
-from the sentinel-faithful model to the `none`-state model, not to tie the code. -/
-theorem tie_proj_polyligne_from_exact [OfScientific α] (inf : α) (sqrt : α → α) (Xp Yp : List α) (x y : α)
+/-- **`proj_polyligne(Xp, Yp, x, y)`** against the `none`-state model `projPolyligneXY` the theorems of `Props/C20.lean`
+are about (Python numbers, `eps = 1e-16`), exceptions included (`IndexError`, `ZeroDivisionError`), under the explicit
+hypotheses that separate the two renderings of the sentinel: `hinf` — on every segment `j` of the two sequences that is
+not skipped and on which `proj_segment` returns, the returned distance is `< inf`; `hne` — a value `< inf` is not `== inf`;
+`hii` — `inf == inf`; `hpow` — `pow v 2 = v * v`. A corollary of the exact tie and of the agreement lemma
+`Proj.projPolyligneXYS_eq_false` (`Lemmas/ProjSentinel.lean`): the hypotheses serve only to pass from the sentinel-faithful
+model to the `none`-state model, not to tie the code. -/
+theorem tie_proj_polyligne [OfScientific α] [OfNat α 2] (inf : α) (sqrt : α → α) (pow : α → α → α) (Xp Yp : List α) (x y : α)
     (hinf : ∀ (j : Nat) (x1 y1 x2 y2 : α) (r : α × α × α), Xp[j]? = some x1 → Yp[j]? = some y1 → Xp[j + 1]? = some x2 →
       Yp[j + 1]? = some y2 → Proj.skipped (1e-16 : α) x1 y1 x2 y2 = false →
-      Proj.projSegment sqrt x1 y1 x2 y2 x y = .ok r → r.1 < inf) :
-    Gen.Geometry.proj_polyligne inf sqrt Xp Yp x y =
+      Proj.projSegment sqrt x1 y1 x2 y2 x y = .ok r → r.1 < inf)
+    (hne : ∀ d : α, d < inf → Proj.isEq d inf = false) (hii : Proj.isEq inf inf = true) (hpow : ∀ v : α, pow v 2 = v * v) :
+    Gen.Geometry.proj_polyligne inf sqrt pow Xp Yp x y =
       liftX ((Proj.projPolyligneXY false sqrt (1e-16 : α) Xp Yp x y).map idx) := by
-  rw [tie_proj_polyligne_exact, Proj.projPolyligneXYS_eq_false inf sqrt (1e-16 : α) Xp Yp x y hinf]
+  rw [tie_proj_polyligne_exact,
+    Proj.projPolyligneXYS_eq_false inf sqrt (sqPow pow) (1e-16 : α) Xp Yp x y hinf hne hii (fun v => by simp only [sqPow, hpow])]
+
+/-- the two-sequence `none`-state loop on the abscissas and ordinates of a list of vertices is the loop on the vertices -/
+theorem polyLoopXY_pairs (sqrt : α → α) (eps x y : α) :
+    ∀ (pts : List (α × α)) (i : Nat) (cur : Option (α × α × α × Nat)),
+      Proj.polyLoopXY false sqrt eps x y (pts.map Prod.fst) (pts.map Prod.snd) i cur =
+        (Proj.polyLoop sqrt eps x y pts i cur).mapError Proj.ErrX.base := by
+  intro pts
+  induction pts with
+  | nil => intro i cur; rfl
+  | cons p1 tl ih =>
+    cases tl with
+    | nil => intro i cur; rfl
+    | cons p2 rest =>
+      intro i cur
+      simp only [List.map_cons] at ih ⊢
+      by_cases hsk : Proj.skipped eps p1.1 p1.2 p2.1 p2.2 = true
+      · simp only [Proj.polyLoopXY, Proj.polyLoop, hsk, if_true]
+        exact ih (i + 1) cur
+      · have hsk' : Proj.skipped eps p1.1 p1.2 p2.1 p2.2 = false := by simpa using hsk
+        cases hp : Proj.projSegment sqrt p1.1 p1.2 p2.1 p2.2 x y with
+        | error e => simp only [Proj.polyLoopXY, Proj.polyLoop, hsk', projSegmentG_false, hp]; rfl
+        | ok r =>
+          simp only [Proj.polyLoopXY, Proj.polyLoop, hsk', projSegmentG_false, hp]
+          exact ih (i + 1) _
+
+/-- **`proj_polyligne`** on the abscissas and ordinates of a list of vertices (how `__projOnTrack` calls it:
+`track.getX()`, `track.getY()`) is the kernel model `projPolyligne` on the vertices, exceptions included
+(`ZeroDivisionError`; `IndexError` on an empty track), under the hypotheses of `tie_proj_polyligne` stated on the
+segments of the vertex list. -/
+theorem tie_proj_polyligne_pairs [OfScientific α] [OfNat α 2] (inf : α) (sqrt : α → α) (pow : α → α → α) (pts : List (α × α)) (x y : α)
+    (hinf : ∀ (j : Nat) (p1 p2 : α × α) (r : α × α × α), pts[j]? = some p1 → pts[j + 1]? = some p2 →
+      Proj.skipped (1e-16 : α) p1.1 p1.2 p2.1 p2.2 = false →
+      Proj.projSegment sqrt p1.1 p1.2 p2.1 p2.2 x y = .ok r → r.1 < inf)
+    (hne : ∀ d : α, d < inf → Proj.isEq d inf = false) (hii : Proj.isEq inf inf = true) (hpow : ∀ v : α, pow v 2 = v * v) :
+    Gen.Geometry.proj_polyligne inf sqrt pow (pts.map Prod.fst) (pts.map Prod.snd) x y =
+      lift ((Proj.projPolyligne sqrt (1e-16 : α) pts x y).map idx) := by
+  rw [tie_proj_polyligne_pairs_exact,
+    Proj.projPolyligneS_eq inf sqrt (sqPow pow) (1e-16 : α) pts x y hinf hne hii (fun v => by simp only [sqPow, hpow])]
+
+/-- the hypothesis `hinf` cannot be dropped (the `none`-state MODEL's rendering of the sentinel deviates from the code
+there): on a single kept segment whose distance is NOT `< inf` (a distance that is `inf` or NaN on doubles, e.g.
+`proj_polyligne([0, 1e308], [0, 1e308], -1e308, -1e308)`), the code keeps nothing and answers from its initial state — the
+FIRST VERTEX, index 0, `distmin` recomputed by the lines after the loop if `inf == inf` (before 563eeba it raised
+`UnboundLocalError`) — while the `none`-state model returns that segment. -/
+theorem proj_polyligne_sentinel_deviation [OfScientific α] [OfNat α 2] (inf : α) (sqrt : α → α) (pow : α → α → α)
+    (x1 y1 x2 y2 x y : α) (r : α × α × α)
+    (hs : Proj.skipped (1e-16 : α) x1 y1 x2 y2 = false) (hp : Proj.projSegment sqrt x1 y1 x2 y2 x y = .ok r)
+    (hn : ¬ r.1 < inf) :
+    Gen.Geometry.proj_polyligne inf sqrt pow [x1, x2] [y1, y2] x y =
+        liftX (((Proj.finishS inf sqrt (sqPow pow) x y (inf, x1, y1, 0)).mapError Proj.ErrX.base).map idx) ∧
+      Proj.projPolyligneXY false sqrt (1e-16 : α) [x1, x2] [y1, y2] x y = .ok (r.1, r.2.1, r.2.2, 0) := by
+  have hp' : Proj.projSegmentG false sqrt x1 y1 x2 y2 x y = .ok r := by rw [projSegmentG_false]; exact hp
+  obtain ⟨h1, h2⟩ := Proj.projPolyligneXYS_single_not_lt false inf sqrt (sqPow pow) (1e-16 : α) x1 y1 x2 y2 x y r hs hp' hn
+  exact ⟨by rw [tie_proj_polyligne_exact, h1], h2⟩
 
 end
 end TV.Tie.C20
